@@ -9,11 +9,12 @@ def cubes(tier):
         out = [dict(cls=c, nsteps=1, a1=a) for c in ("local", "base") for a in range(NACT)]
         out += [dict(cls="local", nsteps=2, a1=a, a2=b, _w=8) for a, b in ((3, 9), (5, 2), (6, 0), (0, 11))]
         out += [dict(cls="local", nsteps=1, a1=a, upload=True) for a in (2, 5)]
-        out += [dict(cls="local", nsteps=2, probe=i, _w=8) for i in range(3)]
+        out += [dict(cls="local", nsteps=2, probe=i, e_lo=lo, e_hi=lo + 5, _w=6) for i in (0, 2) for lo in (-1, 5, 11, 17)]
         return out
     out = [dict(cls=c, nsteps=2, a1=a, a2=b, _w=8) for c in ("local", "base") for a in REP for b in REP]
     out += [dict(cls=c, nsteps=1, a1=a, upload=u) for c in ("local", "base") for a in range(NACT) for u in (False, True)]
-    out += [dict(cls="local", nsteps=2, probe=i, upload=u, _w=8) for i in range(3) for u in (False, True)]
+    out += [dict(cls="local", nsteps=2, probe=i, upload=u, e_lo=lo, e_hi=lo + 5, _w=6) for i in range(3) for u in (False, True)
+            for lo in (-1, 5, 11, 17, 23)]
     return out
 
 
@@ -22,7 +23,8 @@ SPEC = Spec(
     title="Concurrent writers cannot corrupt a shared store or state database",
     harnesses=[
         H("interference", "vf.harness.c16_interf", "h_interfere", cubes, timeout={"quick": 500, "thorough": 1200},
-          bounds={"quick": "one writer stages and transfers a 3-file tree (duplicate + empty content) into a shared store with a shared state table; "
+          bounds={"quick": "(plus paired probe cubes: another writer's in-place reflink probe leaves an empty file under an object's final name at a symbolic "
+                           "position and completes its add at a later symbolic position) one writer stages and transfers a 3-file tree (duplicate + empty content) into a shared store with a shared state table; "
                            "one environment step (every one of 12 actions) fires at a symbolic position: before the operation or before any of its "
                            "~17 filesystem mutations; 4 two-step cubes; both store classes; upload staging",
                   "thorough": "two environment steps over 8 representative actions (64 ordered pairs) x 2 classes, all positions"},
